@@ -181,6 +181,21 @@ let scope_line (line : string) : unit =
          | None -> "none") items))
   | _ -> ()
 
+(* ---- subst mode (C16) ---- *)
+let subst_line (line : string) : unit =
+  let show = function Param p -> "p" ^ string_of_int (int_of_nat p) | Value v -> "v" ^ string_of_int (int_of_nat v) in
+  let rec qs = function "?" :: r -> List.map int_of_string r | _ :: r -> qs r | [] -> [] in
+  match words line with
+  | "elem" :: p :: v :: rest ->
+    let out = List.map (fun q -> show (subst_elem (nat_of_int (int_of_string p)) (Value (nat_of_int (int_of_string v))) (nat_of_int q))) (qs rest) in
+    print_endline (join " " out)
+  | "gen" :: b :: rest ->
+    let bs = if b = "-" then [] else List.map (fun tok ->
+      match split_on ':' tok with [p; v] -> (nat_of_int (int_of_string p), Value (nat_of_int (int_of_string v))) | _ -> failwith "bad binding")
+      (split_on ',' b) in
+    print_endline (join " " (List.map (fun q -> show (subst_gen bs (nat_of_int q))) (qs rest)))
+  | _ -> ()
+
 let iter_lines f =
   try while true do
     let l = input_line stdin in
@@ -191,4 +206,5 @@ let () =
   match Sys.argv with
   | [| _; "rb" |] -> iter_lines rb_line
   | [| _; "scope" |] -> iter_lines scope_line
+  | [| _; "subst" |] -> iter_lines subst_line
   | _ -> prerr_endline "usage: model_driver <mode>"; exit 2
